@@ -31,7 +31,7 @@ var baseTrusted = []string{
 	"T-ENG: the VC generator gvc (SSA semantics as implemented in /verif/engine); guarded by the must-fail corpus in /verif/selftest",
 	"T-SSA: go/packages + go/ssa (x/tools v0.29.0) lower the source faithfully",
 	"T-SMT: z3 5.1.0 / z3 4.8.12 / cvc5 1.0.3 are sound",
-	"A-LEN: every slice/string length and capacity is at most 2^48 (amd64 address space)",
+	"A-LEN: every slice/string that exists has length and capacity at most 2^40 (1 TiB); make() panics beyond 2^47 bytes",
 	"A-NOALIAS-IN: distinct slice/pointer parameters (and slice-typed fields of parameters) do not overlap in memory",
 	"A-GLOBALS: package-level tables and error values keep the values their initialisers give them (checked for the code under verification by frame obligations; not checkable for clients)",
 }
